@@ -40,7 +40,20 @@ RULE = ('case = one forest (1-3 roots, depth <= 3) mixing objects that override 
         'of every node with a fresh copy of the tree. Non-trivial = at least 3 '
         'steps returned normally with notification on and delivered an expected '
         'event to a subscribed ancestor, and the derived facts of the forest '
-        'changed at least once; distinct by (operation sequence, final shape).')
+        'changed at least once; distinct by (operation sequence, final shape). '
+        'Secondary mutating APIs are steps of the same histories, judged by the '
+        'same oracle: pg.patching.patch_on_key / _path / _value / _type / _member '
+        '(pattern drawn from a member that exists; value or value_fn, '
+        'MISSING_VALUE included; skip_notification left out / True / False, by '
+        'keyword or position), pg.patch with a dict / rebinder / patcher URI, '
+        'clone / sym_clone / pg.clone with override= (the original must hear '
+        'nothing); rebind also with an explicit skip_notification=False. Dict '
+        'keys include the empty key and keys that look like paths (a.b, [0], '
+        'k[1]), one of them often directly below a root. Between '
+        'steps the caller sometimes mutates (clear / pop / overwrite / add a '
+        'key, at any nesting level) the plain dict a derived-fact getter '
+        'returned (missing / nondefault, flatten both ways, both spellings) and '
+        'every fact of every node of that tree is asked again.')
 REQUIRED_COUNTERS = ['steps_ok', 'event_receiver_checks', 'events_expected_and_delivered',
                      'payload_entries_checked', 'order_pairs_checked',
                      'suppressed_steps_checked', 'derived_fact_comparisons',
@@ -49,7 +62,8 @@ REQUIRED_COUNTERS = ['steps_ok', 'event_receiver_checks', 'events_expected_and_d
                      'functor_arg_writes', 'suppressed_binds_of_unbound_functor_args',
                      'derived_checks_after_functor_arg_writes',
                      'secondary_api_steps_ok_that_wrote',
-                     'secondary_api_steps_ok_suppressed']
+                     'secondary_api_steps_ok_suppressed',
+                     'answers_reasked_after_caller_mutation']
 ASSUMPTIONS = [
     'only public API is observed: _on_change/_on_bound overrides, onchange_callback, FieldUpdate fields, sym_parent, sym_items, the derived-state getters',
     'a batch never has a path that is a prefix of another, never addresses a location through a list that the same batch shortens or lengthens, and never uses Insertion on a dict',
@@ -63,6 +77,8 @@ ASSUMPTIONS = [
     'an unbound functor argument is not missing (documented); no functor argument is a schema-bound Dict without default, whose unbound state the library materialises as a partial dict (whether that counts as missing is left open)',
     'after a call that wrote into or below a functor argument, the functor and all its ancestors are asked every getter also in the sparse-getter mode',
     'expected locations are the positions found by walking the containers from the receiver (sym_items), never the sym_path the library reports; a history continues over a tree whose only fault is a stale sym_path',
+    'secondary APIs (patch_on_*, pg.patch, clone(override=)): the written locations are the identity differences of the containers before and after the call (which locations a pattern matches is not judged); an explicit skip_notification=False inside notify_on_change(False) is not generated (which request wins is left open); pg.patch gets one rule (a list of rules is a chain of calls); a patch_on_* call with MISSING_VALUE leaves an event open for every untouched member below the receiver (a matched location already at its default); events of the clone made by clone(override=) are not judged, only that no node of the original hears anything',
+    'a plain dict returned by sym_missing / sym_nondefault / missing_values / non_default_values belongs to the caller: mutating it is not a mutation of the tree, so every derived fact must read as before (compared with copies of the answers taken just before; those were compared with fresh copies after the step); not done in sparse-getter cases',
 ]
 
 UNTYPED = ('Any2', 'Writable', 'Notifier', 'Notifier', 'Bound', 'PlainBase', 'SubNotifier',
@@ -1353,7 +1369,7 @@ def run_case(ctx, i):
         ridx, keys, tname, fact, was, now = probs[0]
         names = sorted({p[3] for p in probs})
         ctx.violation(
-            'stale-derived', f'caller-mutated-answer@{kind}(flatten={flat})',
+            'stale-derived', f'caller-mutated-answer@{kind}',
             f'after step {len(trace)} the caller changed the dict returned by a '
             f'{kind} getter (flatten={flat}) of a node of root{ridx}: '
             f'{len(probs)} answers changed although the contents did not '
